@@ -73,6 +73,22 @@ theorem C18_bmp_rt (k : Kind) (inl : Bool) (w h : Nat) (data name : Bytes) (exis
       simp [withName, hnm, hsave, h3]
   · rw [hj]; exact candidate_suffix name extBmp j
 
+/-- The row-wise reading of the samples used above is the pixel-by-pixel one: pixel (r, c) of a
+    gray image is byte `r·w + c`, of an RGB image bytes `3(r·w + c) …`, of a 1-bit image bit
+    `7 - c mod 8` of byte `r·⌈w/8⌉ + c div 8` (0 = black, 1 = white). -/
+theorem C18_samples_pixelwise (k : Kind) (w h : Nat) (data : Bytes) (hlen : data.length = h * rowBytes k w) :
+    samplesRGB k w h data = samplesRGBIdx k w h data :=
+  samplesRGB_eq_idx k w h data hlen
+
+/-- `bmp_rt` stated against the pixel-by-pixel meaning of the samples. -/
+theorem C18_bmp_rt_pixelwise (k : Kind) (inl : Bool) (w h : Nat) (data name : Bytes) (existing : List Bytes)
+    (filters : List Flt) (hl : ∀ f ∈ filters, Lossless f)
+    (hw1 : 1 ≤ w) (hh1 : 1 ≤ h) (hfit : FitsBmp k w h) (hlen : data.length = h * rowBytes k w) :
+    ∃ nm file, exportImage ⟨filters, csOfKind k inl, bpcOfKind k, w, h, name, data⟩ existing = .ok (nm, file) ∧
+      readBMP file = some (w, h, samplesRGBIdx k w h data) := by
+  obtain ⟨nm, file, h1, _, _, h4⟩ := C18_bmp_rt k inl w h data name existing filters hl hw1 hh1 hfit hlen
+  exact ⟨nm, file, h1, by rw [← samplesRGB_eq_idx k w h data hlen]; exact h4⟩
+
 /-- Non-vacuity: a 3×2 RGB image (row length 9, not a multiple of 4) through Flate, with `Im0.bmp`
     already present, meets the hypotheses; and the exported file is what the reader decodes. -/
 example : FitsBmp .rgb8 3 2 ∧ (List.replicate 18 (7 : UInt8)).length = 2 * rowBytes .rgb8 3 := by
